@@ -55,6 +55,12 @@ func newSTWorld(rng *rand.Rand) *stWorld {
 		rng.Shuffle(len(tw), func(i, j int) { tw[i], tw[j] = tw[j], tw[i] })
 		pool = append(tw[:3], pool...)
 	}
+	if rng.Intn(3) == 0 {
+		// keys that are no file names as they are: empty, the directory itself, its parent, a path, a hidden or temporary name
+		od := []string{"", ".", "..", "a/b", ".hidden", ".tmp-k1", "...", strings.Repeat("L", 240)}
+		rng.Shuffle(len(od), func(i, j int) { od[i], od[j] = od[j], od[i] })
+		pool = append(od[:2], pool...)
+	}
 	for i, k := range []string{"k1", "k2", "k3"} {
 		w.keys[k] = pool[i]
 	}
